@@ -1,10 +1,89 @@
 package harness
 
 import (
+	"fmt"
+	"runtime"
+	"sync"
+	"sync/atomic"
 	"testing"
+
+	"github.com/mark3labs/flyt"
+	"pgregory.net/rapid"
 )
 
 // C12 — worker pool: tasks run exactly once, Wait is a barrier, Close leaks nothing.
+
+// C12Stress: real scheduler, no bubble. Lanes of reused pools run many tiny Submit/Wait rounds;
+// after every Wait all tasks submitted before it must have finished (flags set by the tasks
+// themselves) and every task must have run exactly once. Windows of a few nanoseconds between
+// "last task done" and "next Submit" are only reachable this way.
+type C12Stress struct {
+	Lanes   int `json:"lanes"`
+	Size    int `json:"size"`
+	Rounds  int `json:"rounds"`
+	PerRnd  int `json:"per_round"`
+	SpinMax int `json:"spin_max"`
+}
+
+func checkC12Stress(t *testing.T, c C12Stress) Verdict {
+	var failMu sync.Mutex
+	fail := ""
+	var wg sync.WaitGroup
+	for lane := 0; lane < c.Lanes; lane++ {
+		wg.Add(1)
+		go func(lane int) {
+			defer wg.Done()
+			pool := flyt.NewWorkerPool(c.Size)
+			defer pool.Close()
+			for r := 0; r < c.Rounds; r++ {
+				failMu.Lock()
+				stop := fail != ""
+				failMu.Unlock()
+				if stop {
+					return
+				}
+				n := 1 + (r+lane)%c.PerRnd
+				counts := make([]int32, n)
+				for i := 0; i < n; i++ {
+					i := i
+					spin := (r*7 + i*13 + lane) % (c.SpinMax + 1)
+					pool.Submit(func() {
+						x := 0
+						for k := 0; k < spin*50; k++ {
+							x += k
+						}
+						_ = x
+						if i == n-1 {
+							runtime.Gosched() // the last task of the round lingers a little
+						}
+						atomic.AddInt32(&counts[i], 1)
+					})
+				}
+				pool.Wait()
+				for i := range counts {
+					if got := atomic.LoadInt32(&counts[i]); got != 1 {
+						failMu.Lock()
+						if fail == "" {
+							fail = fmt.Sprintf("lane %d round %d: after Wait task %d of %d had run %d times (pool size %d)", lane, r, i, n, got, c.Size)
+						}
+						failMu.Unlock()
+						return
+					}
+				}
+			}
+		}(lane)
+	}
+	wg.Wait()
+	if fail != "" {
+		return bad("C12:stress-wait-barrier", "%s", fail)
+	}
+	return Verdict{NonTrivial: true, Classes: []string{"real-scheduler-stress"}}
+}
+
+func genC12Stress(rt *rapid.T) C12Stress {
+	return C12Stress{Lanes: rapid.IntRange(2, 8).Draw(rt, "lanes"), Size: rapid.IntRange(1, 4).Draw(rt, "size"), Rounds: rapid.IntRange(200, 1500).Draw(rt, "rounds"),
+		PerRnd: rapid.IntRange(1, 4).Draw(rt, "per"), SpinMax: rapid.IntRange(0, 6).Draw(rt, "spin")}
+}
 
 func TestC12(t *testing.T) {
 	r := newRun(t, "C12")
@@ -33,6 +112,10 @@ func TestC12(t *testing.T) {
 	}
 	r.exhaustive("every pool size -1..16 x {0, 1, 5w+3 tasks from one submitter, three submitters} x gated/timed, two Wait rounds each")
 	rapidPart(r, "rand", r.pick(2500, 40000), genPool(500), chk)
+	rapidPart(r, "real-scheduler-stress", r.pick(12, 150), genC12Stress, checkC12Stress)
 }
 
-func init() { registerReplay("C12", checkPool("C12")) }
+func init() {
+	registerReplay("C12", checkPool("C12"))
+	registerReplaySub("C12", "real-scheduler-stress", checkC12Stress)
+}
